@@ -260,7 +260,7 @@ func runC06(t *testing.T, tape *sim.Tape, tier string) *Outcome {
 	bad, endErr, desc := applyStreamFaults(tape, data, o)
 	if declaresHuge(bad) {
 		// boundary lengths are judged by process survival, one subprocess each, a few per run
-		if tape.Draw(8, "runbomb") == 0 {
+		if tape.Draw(8, "runbomb") == 7 { // 0 stays the cheap choice for minimised tapes
 			ok, det := runBomb(bad, bombLimit)
 			o.stat("bomb_subprocesses", 1)
 			o.Evals++
